@@ -1,5 +1,7 @@
 package main
 
+import "strings"
+
 // Per-property configuration: what is claimed, what is not decided, what is assumed.
 
 func propertyTable() map[string]PropertyCfg {
@@ -67,6 +69,42 @@ func propertyTable() map[string]PropertyCfg {
 				"termination of the parent walk is not proved (no cardinality measure); the walk stops at already-marked styles, hence also on cyclic parent chains",
 			},
 			NotDecided: []string{"'the optimized list can still be written to every format and read back with the same cues' is codec fidelity (C01-C05): not decided", "idempotence is decided as a lemma harness over the contract when harness optimizeTwice is present"},
+		},
+		"C08": {ID: "C08",
+			Sweep: &SweepCfg{
+				Funcs: func(p *Program) []string { return callTree(p, entryPoints(p)) },
+				Unclaimed: map[string]string{
+					"stlCharacterHandler.decode#type-assert[vi.(string)]": "the handler's table h.m is one of the BiMaps of stlCharacterCodeTables (all with string values); table facts are attached to package-level BiMaps named at the call, not to one held in a struct field: not decided",
+				},
+			},
+			Assumptions: []string{
+				"panic sites covered: nil dereference, index and slice bounds, nil-map write, failed type assertion, division by zero, negative make size, plus every loop invariant and every precondition at its call sites; out of scope: stack overflow, out-of-memory, panics inside library functions on valid arguments",
+				"a cue list 'assembled from the public types' (predicate writable): cue pointers are non-nil, map values are non-nil and keyed by their own ID; everything else (metadata, styles, regions, inline attributes, the maps themselves) may be absent",
+				"termination: counted loops get an automatic variant (obligation kind decreases); range loops terminate by construction; loops driven by a scanner / tokenizer / decoder / demultiplexer terminate when that library reports the end of its finite input (assumed, listed per loop below); 'time proportional to the input' is not decided",
+				"go-astits, golang.org/x/net/html, encoding/xml, bufio are trusted not to panic on any input (the property excludes streams on which the demultiplexer itself crashes)",
+			},
+			NotDecided: []string{"'returns within time proportional to the input' (a complexity bound) is not decided; only termination of counted loops is", "Unicode text: strings are an uninterpreted sort with byte-level length/index laws, so every text value is covered, but no rune-level law is used"},
+		},
+		"C18": {ID: "C18",
+			Sweep: &SweepCfg{
+				Funcs: func(p *Program) []string { return propFuncs(p, "C18") },
+				Select: func(o *Obligation) bool {
+					switch o.Kind {
+					case "post@return":
+						return strings.Contains(o.Name, "C18") || strings.Contains(o.Name, "fault-reported") || strings.HasPrefix(o.Name, "readNBytes#") || strings.HasPrefix(o.Name, "newScanner#")
+					case "inv-entry", "inv-step", "pre@call":
+						return true
+					}
+					return false
+				},
+			},
+			Assumptions: []string{
+				"fault model (contracts/extern.gvc, trusted): a reader carries a ghost flag `failed` set exactly when one of its Read calls returns an error other than io.EOF; a writer carries `wfailed` set exactly when one of its Write calls returns an error; `overlong` is set on a reader when a bufio.Scanner polling it gives up on a token longer than its buffer; the cell nil.fsfault is set when os.Open / os.Create returns an error",
+				"library consumers (trusted, read off their sources): bufio.Scanner.Scan returning false after the reader failed or a token did not fit keeps that error for Err(); encoding/xml Decoder.Decode returns a read failure that happens while it reads its element; xml Encoder.Encode flushes and returns a failed Write; astits Demuxer.NextData returns an error other than ErrNoMorePackets when the reader fails",
+				"the postcondition `failed ==> err != nil` at every return of every reader (resp. `wfailed ==> err != nil` for writers, `fsfault ==> err != nil` for Open/OpenFile/Write) is the property's first three clauses; preconditions: the reader/writer has not failed before the call",
+			},
+			NotDecided: []string{"'without a fault, a writer's successful return means the complete document was handed to the destination' needs a specification of the complete document: not decided (the writers' only exits after a failed Write are error returns, which is what the postcondition proves)",
+				"Subtitles.Write: that a failing WriteToX(f) on the created file is reported follows from WriteToX's postcondition and Write returning that error; the flag of the local file cannot be named in Write's contract, so only the os.Create clause is stated for it"},
 		},
 		"C14": {ID: "C14",
 			Assumptions: []string{
